@@ -23,6 +23,8 @@ pub enum Obs {
     SpawnFail { attempt: u32 },
     Signal { child: u32, sig: i32 },
     Kill { child: u32 },
+    KillFail { child: u32 },
+    SignalFail { child: u32, sig: i32 },
     Reaped { child: u32, status: i32 },
     Probe { op: u32, cur: String, prev: String },
     ProbeEnd { op: u32 },
@@ -72,6 +74,9 @@ enum Ctl {
 struct MChild {
     spec: ChildSpec,
     death: Option<(u64, i32)>,
+    /// the one-shot injected failures already used up
+    kill_failed: bool,
+    sig_failed: bool,
 }
 
 pub enum ModelResult {
@@ -166,6 +171,17 @@ impl<'a> M<'a> {
         self.enqueue_arrivals_until(end.saturating_sub(1));
         self.now = end;
     }
+    /// an operation on the process failed: the error handler (if any) is called with it
+    fn error(&mut self) {
+        if let Some(ms) = self.errh {
+            let n = self.err_n;
+            self.err_n += 1;
+            self.emit(Obs::Err { n });
+            if let Some(ms) = ms {
+                self.busy(ms);
+            }
+        }
+    }
     fn spawn(&mut self) -> bool {
         // hook
         if let Some((hid, ms)) = self.hook {
@@ -182,21 +198,14 @@ impl<'a> M<'a> {
         self.attempts += 1;
         if self.scn.spawn_fail.contains(&attempt) {
             self.emit(Obs::SpawnFail { attempt });
-            if let Some(ms) = self.errh {
-                let n = self.err_n;
-                self.err_n += 1;
-                self.emit(Obs::Err { n });
-                if let Some(ms) = ms {
-                    self.busy(ms);
-                }
-            }
+            self.error();
             return false;
         }
         let k = self.children.len() as u32;
         let specs = &self.scn.children;
         let spec = if specs.is_empty() { ChildSpec::default() } else { specs[(k as usize).min(specs.len() - 1)].clone() };
         let death = spec.self_exit.map(|d| (self.now + d, spec.code));
-        self.children.push(MChild { spec, death });
+        self.children.push(MChild { spec, death, kill_failed: false, sig_failed: false });
         let env = self.hook.map(|h| h.0 as i64).unwrap_or(-1);
         self.emit(Obs::Spawn { child: k, hook_env: env });
         self.cur = Cur::Running(k);
@@ -210,8 +219,18 @@ impl<'a> M<'a> {
         };
         self.cur = Cur::Pending;
     }
-    fn signal(&mut self, k: u32, sig: i32) {
+    /// false: the signal could not be sent (reported to the error handler; the control is over)
+    fn signal(&mut self, k: u32, sig: i32) -> bool {
         let os = expected_os_signal(sig);
+        {
+            let c = &mut self.children[k as usize];
+            if c.spec.fail_signal && !c.sig_failed {
+                c.sig_failed = true;
+                self.emit(Obs::SignalFail { child: k, sig: os });
+                self.error();
+                return false;
+            }
+        }
         self.emit(Obs::Signal { child: k, sig: os });
         let now = self.now;
         let c = &mut self.children[k as usize];
@@ -229,9 +248,20 @@ impl<'a> M<'a> {
                 _ => c.death = Some((at, st)),
             }
         }
+        true
     }
-    /// kill + reap the running child k now
-    fn kill_reap(&mut self, k: u32) {
+    /// kill + reap the running child k now; false: the kill failed (reported to the error handler), the process
+    /// keeps running and the control is over
+    fn kill_reap(&mut self, k: u32) -> bool {
+        {
+            let c = &mut self.children[k as usize];
+            if c.spec.fail_kill && !c.kill_failed {
+                c.kill_failed = true;
+                self.emit(Obs::KillFail { child: k });
+                self.error();
+                return false;
+            }
+        }
         self.emit(Obs::Kill { child: k });
         let now = self.now;
         let c = &mut self.children[k as usize];
@@ -247,6 +277,7 @@ impl<'a> M<'a> {
         for t in std::mem::take(&mut self.on_end) {
             self.resolve(Some(t));
         }
+        true
     }
     fn end_task(&mut self) {
         self.gone = true;
@@ -278,36 +309,47 @@ impl<'a> M<'a> {
             }
             Ctl::Op(_, Op::StopSig { sig, grace }) => {
                 if let Some(k) = self.running_child() {
-                    self.signal(k, sig);
-                    // the graceful stop completes at min(child exit, deadline); its own ticket (if any) resolves then
-                    self.timer = Some((self.now + grace, false, tk.unwrap_or(u32::MAX)));
+                    if self.signal(k, sig) {
+                        // the graceful stop completes at min(child exit, deadline); its own ticket (if any) resolves then
+                        self.timer = Some((self.now + grace, false, tk.unwrap_or(u32::MAX)));
+                    } else {
+                        self.resolve(tk);
+                    }
                 } else {
                     self.resolve(tk);
                 }
             }
             Ctl::Op(_, Op::TryRestart) => {
                 if let Some(k) = self.running_child() {
-                    self.kill_reap(k);
-                    self.reset();
-                    self.spawn();
+                    if self.kill_reap(k) {
+                        self.reset();
+                        self.spawn();
+                    }
                 }
                 self.resolve(tk);
             }
             Ctl::Op(_, Op::TryRestartSig { sig, grace }) => {
                 if let Some(k) = self.running_child() {
-                    self.signal(k, sig);
-                    let t = tk.unwrap_or(u32::MAX);
-                    self.timer = Some((self.now + grace, true, t));
-                    self.restart_ticket = Some(t);
+                    if self.signal(k, sig) {
+                        let t = tk.unwrap_or(u32::MAX);
+                        self.timer = Some((self.now + grace, true, t));
+                        self.restart_ticket = Some(t);
+                    } else {
+                        self.resolve(tk);
+                    }
                 } else {
                     self.resolve(tk);
                 }
             }
             Ctl::TimerRestart(t) => {
-                if let Some(k) = self.running_child() {
-                    self.kill_reap(k);
-                }
+                // this is the restart: whatever happens next, a later end of the process restarts nothing
                 self.restart_ticket = None;
+                if let Some(k) = self.running_child() {
+                    if !self.kill_reap(k) {
+                        self.resolve(Some(t));
+                        return;
+                    }
+                }
                 self.reset();
                 self.spawn();
                 self.resolve(Some(t));
@@ -384,8 +426,8 @@ impl<'a> M<'a> {
 }
 
 pub fn run_model(scn: &E1Scn) -> ModelResult {
-    if scn.senders.len() != 1 || scn.drop_handles || scn.children.iter().any(|c| c.fail_kill || c.fail_signal || c.fail_wait) {
-        return ModelResult::Ambiguous("outside the model's scope (several senders, dropped handles or child-operation faults)");
+    if scn.senders.len() != 1 || scn.drop_handles || scn.children.iter().any(|c| c.fail_wait) {
+        return ModelResult::Ambiguous("outside the model's scope (several senders, dropped handles or wait() failures)");
     }
     let mut t = 0;
     let mut arrivals = VecDeque::new();
@@ -495,6 +537,8 @@ pub fn observed_trace(scn: &E1Scn, out: &RunOut) -> Vec<(u64, Obs)> {
             Ev::SpawnFail { attempt, .. } => Obs::SpawnFail { attempt: *attempt },
             Ev::Signal { child, sig, .. } => Obs::Signal { child: *child, sig: *sig },
             Ev::Kill { child } => Obs::Kill { child: *child },
+            Ev::KillFail { child } => Obs::KillFail { child: *child },
+            Ev::SignalFail { child, sig } => Obs::SignalFail { child: *child, sig: *sig },
             Ev::Reaped { child, status } => Obs::Reaped { child: *child, status: *status },
             Ev::MarkerStart { op, cur, prev } => Obs::Probe { op: *op, cur: sk(cur), prev: sk(prev) },
             Ev::MarkerEnd { op } => Obs::ProbeEnd { op: *op },
@@ -560,15 +604,18 @@ fn klass(k: u64) -> ChildSpec {
 }
 pub const CLASSES: u64 = 6;
 
-/// number of exhaustive scenarios of length <= max_len: sum ALPHA^len * 2 (burst/settled) * CLASSES * 3 (spawn-failure plan)
+/// fault plans of the exhaustive part: none, first / second spawn fails, first kill / first signal on the first process fails
+pub const PLANS: u64 = 5;
+
+/// number of exhaustive scenarios of length <= max_len: sum ALPHA^len * 2 (burst/settled) * CLASSES * PLANS
 pub fn exhaustive_count(max_len: u32) -> u64 {
-    (1..=max_len).map(|l| ALPHA.pow(l) * 2 * CLASSES * 3).sum()
+    (1..=max_len).map(|l| ALPHA.pow(l) * 2 * CLASSES * PLANS).sum()
 }
 
 pub fn exhaustive_scn(mut idx: u64, max_len: u32) -> Option<E1Scn> {
     let mut len = 0;
     for l in 1..=max_len {
-        let n = ALPHA.pow(l) * 2 * CLASSES * 3;
+        let n = ALPHA.pow(l) * 2 * CLASSES * PLANS;
         if idx < n {
             len = l;
             break;
@@ -582,8 +629,8 @@ pub fn exhaustive_scn(mut idx: u64, max_len: u32) -> Option<E1Scn> {
     idx /= 2;
     let class = idx % CLASSES;
     idx /= CLASSES;
-    let sf = idx % 3;
-    idx /= 3;
+    let sf = idx % PLANS;
+    idx /= PLANS;
     let mut sigs = e1::SigAlloc::new();
     let mut steps = Vec::new();
     for i in 0..len {
@@ -596,11 +643,11 @@ pub fn exhaustive_scn(mut idx: u64, max_len: u32) -> Option<E1Scn> {
         family: if settled { "exh-settled".into() } else { "exh-burst".into() },
         grouped: false,
         session: false,
-        children: vec![klass(class)],
+        children: vec![ChildSpec { fail_kill: sf == 3, fail_signal: sf == 4, ..klass(class) }],
         spawn_fail: match sf {
-            0 => vec![],
             1 => vec![0],
-            _ => vec![1],
+            2 => vec![1],
+            _ => vec![],
         },
         senders: vec![steps],
         drop_handles: false,
@@ -646,6 +693,9 @@ pub fn gen_model_random(rng: &mut Rng) -> E1Scn {
             if let SigReact::Exit(d) = &mut c.on_signal {
                 *d = *rng.pick(&[0u64, 13, 29, 90, 333]);
             }
+            // one-shot failures of the operations on this process
+            c.fail_kill = rng.chance(1, 5);
+            c.fail_signal = rng.chance(1, 6);
             c
         })
         .collect();
@@ -743,6 +793,8 @@ impl Check for C09 {
                             Some(Obs::SpawnFail { .. }) => "spawn-failure",
                             Some(Obs::Signal { .. }) => "signal",
                             Some(Obs::Kill { .. }) => "kill",
+                            Some(Obs::KillFail { .. }) => "kill-failure",
+                            Some(Obs::SignalFail { .. }) => "signal-failure",
                             Some(Obs::Reaped { .. }) => "reap",
                             Some(Obs::Probe { .. }) | Some(Obs::ProbeEnd { .. }) => "probe",
                             Some(Obs::Hook { .. }) => "spawn-hook",
